@@ -2,10 +2,12 @@
 REGISTRY = {
     'C01': ['base_core'],
     'C06': ['base_core'],
-    'C05': ['thread_pool', 'strand'],
+    'C02': ['core'],
+    'C05': ['thread_pool', 'strand', 'core'],
     'C07': ['strand'],
     'C08': ['thread_pool'],
     'C10': ['any'],
+    'C12': ['core'],
     'C16': ['event', 'base_core'],
     'C19': ['atomic'],
 }
@@ -35,13 +37,27 @@ CLAIMS = {
                 'accessor; reference-count thresholds of ResultCore::Impl are in unit result_core when present.',
         'design': 'DESIGN.md 6 C06, 5.B, 5.I, A.2',
     },
+    'C02': {
+        'text': 'Every function of Core<...> is extracted and proved against a routing spec written from the property text, one job per '
+                'configuration of the compile-time predicates (signature class x return kind x Run/Then/ThenInline x unique/shared source): '
+                'CallResolveVoid (functor invoked exactly once with the right argument), CallResolveState (invoke iff the input is the kind '
+                'the callback takes, else pass-through unchanged), CallResolveAsync (plain / Result / void stored as is; Future, SharedFuture, '
+                'Task: registration on the inner state, Task head started), CallImpl with its function-try-block (throw => Exception with the '
+                'thrown payload), Done (store, release, destroy, publish, in that order), Impl second visit (lemma unwrap: the step completes '
+                'with exactly the inner Result), Call, Drop (= Call on Error(Stop)), MoveToCaller, detail::SetCallback, MakeCore.',
+        'note': 'Payloads are opaque (kind, state, tag) triples; exceptions exist only at the functor call; the mapping from C++ callables to '
+                'signature classes (is_invocable_v, Return<>, MakeCore type computation) is configuration input, not proved; step order is the '
+                'Loop / Here token discipline of C01. quick = 4 return kinds, thorough = the full product.',
+        'design': 'DESIGN.md 6 C02, 5.A',
+    },
     'C05': {
         'text': 'Executor contracts proved per implementation: Inline<Stopped>::Submit (Call xor Drop, Drop iff the stopped instance), '
                 'ManualExecutor::Submit/Drain (loop contract: every queued job Called exactly once), Strand (Submit/Call/Drop, see C07), '
                 'FairThreadPool (Submit/Loop/Stop/SoftStop/HardStop under a monitor invariant: accepted iff not stopped at the deciding step, '
                 'else Dropped exactly once outside the lock), against one Call-xor-Drop interface contract with a ghost per-job fate.',
-        'note': 'The pipeline side of C05 (Core::Impl submits exactly once to the stored executor, ThenInline never submits, executor inheritance, '
-                'OnAwaiter) is in unit core when registered; "runs inside e" for third-party executors is the interface contract, trusted.',
+        'note': 'Pipeline side: Core::Impl submits exactly once to the step\'s executor iff IsCall and never for ThenInline, TransferExecutorTo '
+                '(keep own executor else inherit: moved from unique, copied from shared), detail::SetCallback stores the given executor, Core::Drop = '
+                'Call on Error(Stop); OnAwaiter is in unit coro when registered; "runs inside e" for third-party executors is the interface contract, trusted.',
         'design': 'DESIGN.md 6 C05, 5.A-C',
     },
     'C07': {
@@ -74,6 +90,15 @@ CLAIMS = {
         'note': 'SC atomics; inputs are consumed exactly once each (C09 contract) is the rely; Promise::Set is the C01 producer contract; '
                 'release of inputs (Retire) is C09.',
         'design': 'DESIGN.md 6 C10, 5.B, A.5',
+    },
+    'C12': {
+        'text': 'Lazy branch of detail::SetCallback proved to have no effect (zero SetInline / Loop / Submit / functor calls; only links the new '
+                'step behind its predecessor and records it as the predecessor\'s continuation), MoveToCaller over a chain of symbolic length '
+                '(returns the head, clears every traversed link), the Task branch of CallResolveAsync (head receives the continuation, then is '
+                'started through Step), Core::Call / Drop / Impl shared with the eager pipeline (so C02 applies once started).',
+        'note': 'Task::Cancel/Detach/ToFuture/Get and Start are in unit handles when registered; "same Result as the eager twin" is the lemma '
+                'that a started chain runs the C02-verified functions.',
+        'design': 'DESIGN.md 6 C12',
     },
     'C16': {
         'text': 'R/G contracts on the OneShotEvent head (TryAdd push loop; SetImpl exchange + walk over a ghost pool: every registered job '
